@@ -5,7 +5,9 @@ package pure
 
 import (
 	"fmt"
+	"runtime/debug"
 	"sort"
+	"strings"
 	"time"
 
 	"verif/internal/mc"
@@ -122,10 +124,34 @@ func Run(s Spec, deadline time.Time) mc.Result {
 	c := &Ctx{Spec: s, Deadline: deadline, res: &res, seen: map[string]bool{}}
 	for _, e := range table[s.Property] {
 		if s.Property+"/"+e.id == s.ID {
-			e.run(c)
+			func() {
+				defer func() {
+					if r := recover(); r != nil {
+						// A panic inside the code under test is a finding, not a tool error.
+						c.Violate("panic", fmt.Sprintf("the code under test panicked: %v\n%s", r, trimStack(debug.Stack())))
+						res.Exhaustive = false
+						res.CapHit = "panic"
+					}
+				}()
+				e.run(c)
+			}()
 			res.WallS = time.Since(start).Seconds()
 			return res
 		}
 	}
 	panic("unknown pure unit " + s.ID)
+}
+
+func trimStack(b []byte) string {
+	lines := strings.Split(string(b), "\n")
+	var keep []string
+	for _, l := range lines {
+		if strings.Contains(l, "furiko-io/furiko") || strings.Contains(l, "/repo/") {
+			keep = append(keep, strings.TrimSpace(l))
+		}
+		if len(keep) >= 8 {
+			break
+		}
+	}
+	return strings.Join(keep, " | ")
 }
